@@ -80,8 +80,37 @@ def check_class(ctx, cls, method, role):
     ctx.check(len(seen) == 8, "C30.all-configurations", comp.site, f"{cls}.configurations", found=f"{len(seen)} of 8 edge/polarity/synchronize settings", required="all 8 settings analysed", nontrivial=False)
 
 
+def port_directions(ctx):
+    """`data` is an input of InputSampler (get samples it) and an output of OutputBuffer (put drives it): the component
+    signature says so, otherwise wiring.connect leaves the port unconnected and converting the component fails (F17)."""
+    from ..pyfacts import Fn
+    from ..stage import Effect
+
+    base = Fn(ctx.repo, REL, "BasicIOBase.__init__", "C30")
+    direction = base.param(2)
+    flows = {}
+    for ex in base.exs:
+        dec = [v for t, v in ex.config if t == direction]
+        for e in ex.of(Effect):
+            m = pmatch("super().__init__(Q_d)", e.call)
+            if m is not None and dec and m["d"][0] == "dict":
+                items = m["d"][1] if len(m["d"]) == 2 and isinstance(m["d"][1], tuple) and (not m["d"][1] or isinstance(m["d"][1][0], tuple) and isinstance(m["d"][1][0][0], tuple)) else m["d"][1:]
+                for kv in items:
+                    k, v = (kv[0], kv[1]) if len(kv) == 2 else (kv[1], kv[2])
+                    if k == ("c", "data") and v[0] == "call":
+                        flows[dec[0]] = tstr(v[1])
+    ctx.check(flows == {True: "Out", False: "In"}, "C30.data-direction", base.site, "BasicIOBase.signature", found=str(flows), required="data: Out(layout) when direction is true, In(layout) otherwise")
+    for cls, want in (("InputSampler", False), ("OutputBuffer", True)):
+        fn = Fn(ctx.repo, REL, f"{cls}.__init__", "C30")
+        calls = [e.call for _, e in fn.facts(Effect) if e.call[0] == "call" and e.call[1] == ("a", ("call", ("n", "super"), (), ()), "__init__") and len(e.call[2]) >= 2]
+        ok = len(calls) == 1 and calls[0][2][1] == ("c", want)
+        ctx.check(ok, "C30.data-direction", fn.site, f"{cls}.direction", found="; ".join(tstr(c)[:120] for c in calls) or "no base constructor call",
+                  required=f"direction={want}: data is an {'output driven by put' if want else 'input sampled by get'}")
+
+
 def check(ctx):
     ctx.use(REL)
+    port_directions(ctx)
     check_class(ctx, "InputSampler", "get", "in")
     check_class(ctx, "OutputBuffer", "put", "out")
 
